@@ -175,6 +175,15 @@ func genWire(r *Rand, g GenCfg) Plan {
 		for v := 0; v < 11; v++ {
 			add(XStep{Op: "hostile", Kind: "match", Val: v})
 		}
+		for v := 0; v < 15; v++ {
+			if all && v%5 != 0 {
+				continue
+			}
+			add(XStep{Op: "hostile", Tok: r.Intn(2), Kind: "envelope", Val: v})
+		}
+		for i := 0; i < 3*nn; i++ {
+			add(XStep{Op: "hostile", Kind: "glob", Val: r.Intn(64), At: r.Intn(64)})
+		}
 		nt := 60
 		if all {
 			nt = 6
@@ -229,7 +238,7 @@ func genWire(r *Rand, g GenCfg) Plan {
 			for v := 0; v < 6; v++ {
 				add(XStep{Op: "byz", Tok: t, Field: "cmd", How: "bad_cmd", Val: v})
 			}
-			for v := 0; v < 8; v++ {
+			for v := 0; v < 12; v++ {
 				add(XStep{Op: "byz", Tok: t, Field: "tag", How: "other_tag", Val: v})
 				add(XStep{Op: "byz", Tok: t, Field: "sp", How: "sp_shape", Val: v + 4*r.Intn(3)})
 			}
